@@ -536,7 +536,7 @@ def lle_cache_decision(w, cfg):
     env = Env(w, cfg)
     try:
         stub = install_solver(env, 'interior')      # what the earlier calls returned is irrelevant for the decision under check
-        seen = {'observing': False, 'reused': None}
+        seen = {'observing': False, 'reused': None, 'guesses': [], 'call': 0}
 
         def phase_fraction(zs, Ks, guess=None, za=0., zb=0.):
             if seen['observing']:
@@ -547,6 +547,11 @@ def lle_cache_decision(w, cfg):
         real_stub = lle_mod.LLE.solve_lle_liquid_mol
 
         def solve(self, mol, T, lle_chemicals, single_loop):
+            # what the solver is handed as its starting point (LLE._K / _phi: the pseudo-equilibrium method iterates from them)
+            # and for which chemicals it was remembered (LLE._lle_chemicals is only replaced at the end of a call)
+            seen['guesses'].append((seen['call'], self._K is None and self._phi is None,
+                                    None if self._lle_chemicals is None else [c.ID for c in self._lle_chemicals],
+                                    [c.ID for c in lle_chemicals]))
             if seen['observing']:
                 seen['reused'] = False
                 raise _Stop()
@@ -578,6 +583,7 @@ def lle_cache_decision(w, cfg):
             Ts.append(w.real(f'T{n}', lo=285., hi=355.))
             if n == len(calls) - 1:
                 seen['observing'] = True
+            seen['call'] = n
             try:
                 lle(Ts[n], top_chemical=top, use_cache=True)
             except _Stop:
@@ -605,6 +611,19 @@ def lle_cache_decision(w, cfg):
                              w.And(w.lt(z1[ID] - z0[ID], tolz), w.lt(z0[ID] - z1[ID], tolz)))
         else:
             w.ensure('solving anew is always allowed', w.And())
+        # ... nor does a call START from the coefficients of an earlier composition: whenever the solver is asked (requires of
+        # A-opt: its answer is a function of the chemicals, composition and temperature of THIS call), the coefficients /
+        # phase fraction it finds remembered were stored for exactly the chemicals now in equilibrium, or nothing is remembered
+        # (coefficient i of another list of chemicals belongs to another chemical, whatever the length of the list)
+        for n, nothing, remembered_for, asked_for in seen['guesses']:
+            if n == 0:
+                w.ensure('call 0: a new solver remembers nothing', w.And(nothing, remembered_for is None))
+                continue
+            mine = [ID for ID in PKGS[pkg] if ID in calls[n]]
+            earlier = [ID for ID in PKGS[pkg] if ID in calls[n - 1]]
+            w.ensure(f'call {n}: the solver is asked about the chemicals present', w.And(asked_for == mine))
+            w.ensure(f'call {n}: the solver starts from remembered coefficients only if they were stored for the chemicals now in equilibrium',
+                     w.And(nothing or (remembered_for == asked_for and earlier == mine)))
         if same_chems:
             w.canary('canary: the remembered coefficients are never reused', w.And(not reused))
         else:
@@ -921,6 +940,129 @@ def sle(w, cfg):
             elif x is None:
                 raise AssertionError('mixture, but no solubility was computed or given (contract harness out of date)')
         w.canary('canary: the solid solute is what it was + 1', w.eq(now['s', SOLUTE], pre['s', SOLUTE] + 1))
+        w.note(calls=dict(env.calls), flows=now)
+    finally:
+        env.restore()
+        StubGamma.env_now = None
+
+
+# --------------------------------------------------------------------------- C15/sle_history: one remembered solver, changing contents / solutes
+
+SOLUTE2 = 'Hexadecanol'                               # Tm = 322.65 K (Tetradecanol: 312.65 K), both with a heat of fusion
+WTH = ('Water', SOLUTE, SOLUTE2)
+PKGS['WTH'] = WTH
+W.preload([WTH])
+_SHORT = {'Water': 'W', SOLUTE: 'T', SOLUTE2: 'H', 'Methanol': 'M'}
+
+
+def sle_history_configs(tier):
+    """
+    A history is a list of steps on ONE stream (hence one remembered SLE solver): (contents, solute, call).  contents: None =
+    what the previous call left, otherwise the stream is emptied and refilled ({ID: chars for the phases 'l','s'}); call 'T' =
+    solubility computed, 'Tx' = given.  Every call is held to the sentences of the property for the solute IT names and
+    the contents it finds.
+    """
+    pT, pH = {SOLUTE: '+?'}, {SOLUTE2: '?+'}
+    mT, mH = {'Water': '+0', SOLUTE: '++'}, {'Water': '+0', SOLUTE2: '++'}
+    both = {'Water': '+0', SOLUTE: '+0', SOLUTE2: '0+'}
+    fam = [
+        # two pure solutes one after the other: each is melted / frozen at ITS melting point
+        ('pureT>pureH', [(pT, SOLUTE, 'T'), (pH, SOLUTE2, 'T')], 'stub', 0),
+        ('pureH>pureT', [(pH, SOLUTE2, 'T'), (pT, SOLUTE, 'T')], 'stub', 0),
+        # a pure solute, then the same solute in a solvent (and back): the mixture needs a solubility, the pure solute none
+        ('pureT>mixT', [(pT, SOLUTE, 'T'), (mT, SOLUTE, 'T')], 'stub', 1),
+        ('mixT>pureT>mixT', [(mT, SOLUTE, 'T'), ({SOLUTE: '++'}, SOLUTE, 'T'), (mT, SOLUTE, 'T')], 'ideal', 0),
+        ('pureT>mixT.given', [(pT, SOLUTE, 'T'), (mT, SOLUTE, 'Tx')], 'ideal', 0),
+        # another solute in the same solvent / two solutes present, named in turn without refilling
+        ('mixT>mixH', [(mT, SOLUTE, 'T'), (mH, SOLUTE2, 'T')], 'stub', 1),
+        ('both:T>H', [(both, SOLUTE, 'T'), (None, SOLUTE2, 'T')], 'ideal', 0),
+        ('both:T.given>H', [(both, SOLUTE, 'Tx'), (None, SOLUTE2, 'T')], 'stub', 1),
+    ]
+    if tier == 'thorough':
+        fam += [
+            ('pureT>pureH>pureT', [(pT, SOLUTE, 'T'), (pH, SOLUTE2, 'T'), (pT, SOLUTE, 'T')], 'stub', 0),
+            ('pureH>pureH>pureT>pureH', [(pH, SOLUTE2, 'T'), (None, SOLUTE2, 'T'), (pT, SOLUTE, 'T'), (pH, SOLUTE2, 'T')], 'ideal', 0),
+            ('mixH>pureT>pureH', [(mH, SOLUTE2, 'T'), (pT, SOLUTE, 'T'), (pH, SOLUTE2, 'T')], 'stub', 1),
+            ('pureH>mixH>mixT', [(pH, SOLUTE2, 'T'), (mH, SOLUTE2, 'T'), (mT, SOLUTE, 'T')], 'stub', 1),
+            ('mixT.given>pureH>mixH.given', [(mT, SOLUTE, 'Tx'), (pH, SOLUTE2, 'T'), (mH, SOLUTE2, 'Tx')], 'ideal', 0),
+            ('both:H>T>H', [(both, SOLUTE2, 'T'), (None, SOLUTE, 'T'), (None, SOLUTE2, 'Tx')], 'stub', 1),
+            ('maybe-pure:T>H', [({'Water': '?0', SOLUTE: '+?'}, SOLUTE, 'T'), ({'Water': '?0', SOLUTE2: '?+'}, SOLUTE2, 'T')], 'stub', 1),
+        ]
+    return [{'name': f'WTH/{nm}/gamma={gamma}/k={k}', 'pkg': 'WTH', 'gamma': gamma, 'k': k,
+             'steps': [{'fill': fill, 'solute': sol, 'call': call} for fill, sol, call in steps]} for nm, steps, gamma, k in fam]
+
+
+@group('C15/sle_history', configs=sle_history_configs,
+       functions=['thermosteam.equilibrium.sle:SLE.__call__', 'thermosteam.equilibrium.sle:SLE._setup',
+                  'thermosteam.equilibrium.sle:SLE._update_solubility', 'thermosteam.equilibrium.sle:SLE._solve_x',
+                  'thermosteam.equilibrium.sle:SLE._x_iter'],
+       assumptions=['A-models: solubility_eutectic, Cn, activity coefficients return arbitrary values',
+                    'A-iter: flx.aitken only evaluates its callback (k times, arbitrary arguments)'])
+def sle_history(w, cfg):
+    """
+    The sentences of C15/sle after a history on the same stream in which the contents and / or the named solute change: only
+    the solute named in THIS call moves, no more of it dissolves than the solubility computed / given in THIS call allows nor
+    than is present NOW, and a solute that is pure NOW is all liquid above ITS melting point and all solid below; a solute
+    that is in a solvent NOW is split by a solubility (it is not melted / frozen as a pure substance).
+    """
+    W.reset_caches()
+    env = Env(w, cfg)
+    IDs = PKGS[cfg['pkg']]
+    try:
+        computed = install_sle_stubs(env, IDs)
+        chems = W.thermo(IDs).chemicals
+        th = tmo.Thermo(chems, Gamma=StubGamma if cfg['gamma'] == 'stub' else eq.IdealActivityCoefficients)
+        s = tmo.MultiStream(None, phases=('l', 's'), thermo=th)
+        sle_obj = s.sle
+        P0 = s.P
+        now = pre = solute = None
+        for n, step in enumerate(cfg['steps']):
+            tag = f'call {n}: '
+            if step['fill'] is not None:
+                plant(w, s, f'f{n}', dist_of(cfg['pkg'], 'ls', step['fill']))       # emptied and refilled
+            solute = step['solute']
+            i_sol = chems.index(solute)
+            Tm = float(chems[solute].Tm)
+            T = w.real(f'T{n}', lo=250., hi=450.)
+            kw = {'T': T}
+            if step['call'] == 'Tx':
+                kw['solubility'] = w.real(f'x{n}')
+            pre = flows_now(s)
+            others_present = any(i != i_sol for ph, sv in W.rows_of(s) for i in sv.dct)
+            del computed[:]
+            try:
+                sle_obj(solute, **kw)
+            except NOT_NORMAL as e:
+                w.note(outcome=type(e).__name__, at_call=n)
+                return
+            w.ensure(f'{tag}the same solver serves every call on the stream', w.And(s.sle is sle_obj))
+            now = flows_now(s)
+            total = pre['l', solute] + pre['s', solute]
+            for (ph, ID), v in sorted(now.items()):
+                if ID != solute:
+                    w.ensure(f'{tag}frame: only the named solute moves, flow[{ph},{ID}] unchanged', w.eq(v, pre[ph, ID]))
+            w.ensure(f'{tag}solute conserved over l+s', w.eq(now['l', solute] + now['s', solute], total))
+            w.ensure(f'{tag}no more dissolved than present, nothing negative',
+                     w.And(w.ge(now['l', solute], 0.), w.le(now['l', solute], total), w.ge(now['s', solute], 0.)))
+            w.ensure(f'{tag}T is the requested temperature', w.eq(s.T, T))
+            w.ensure(f'{tag}frame: P unchanged', w.eq(s.P, P0))
+            w.ensure(f'{tag}rep_ok (no stored zero)', rep_ok(w, s))
+            x = kw.get('solubility', computed[-1] if computed else None)
+            if x is not None:
+                other_liquid = w_total([now['l', ID] for ID in IDs if ID != solute])
+                dissolved = now['l', solute]
+                w.ensure(f'{tag}no more dissolved than the solubility allows (mole fraction of the solute in the liquid <= x)',
+                         w.Or(w.And(w.lt(x, 0.), w.eq(dissolved, 0.)),
+                              w.And(w.ge(x, 0.), w.lt(x, 1.), w.le(dissolved * (1. - x), x * other_liquid)),
+                              w.ge(x, 1.)))
+            if not others_present:
+                w.ensure(f'{tag}pure solute: all liquid above ITS melting point, all solid below',
+                         w.And(w.Implies(w.gt(T, Tm), w.And(w.eq(now['l', solute], total), w.eq(now['s', solute], 0.))),
+                               w.Implies(w.lt(T, Tm), w.And(w.eq(now['s', solute], total), w.eq(now['l', solute], 0.)))))
+            else:
+                w.ensure(f'{tag}solute in a solvent: split by a solubility computed or given in this call (not melted / frozen as a pure substance)',
+                         w.And(x is not None))
+        w.canary('canary: the solid solute is what it was + 1', w.eq(now['s', solute], pre['s', solute] + 1))
         w.note(calls=dict(env.calls), flows=now)
     finally:
         env.restore()
